@@ -327,6 +327,21 @@ struct Eval {
 }
 
 fn evaluate(c: &Case) -> Eval {
+    let e = evaluate_plain(c);
+    if e.symptom.is_none() {
+        // once more with invisible groups in the item (as `macro_rules!` fragments arrive): the groups are part of
+        // the item and have to come back, the comparison ignores them like any other spacing
+        expand::set_fragments(true);
+        let f = evaluate_plain(c);
+        expand::set_fragments(false);
+        if let Some((sym, what)) = f.symptom {
+            return Eval { symptom: Some((format!("{sym}-with-fragment-groups"), what)), had_error: f.had_error };
+        }
+    }
+    e
+}
+
+fn evaluate_plain(c: &Case) -> Eval {
     let ts = match expand::expand_attr(&c.attr, &c.input) {
         Ok(t) => t,
         Err(e) => return Eval { symptom: Some(("expansion-failed".into(), e)), had_error: false },
